@@ -128,6 +128,7 @@ class WsgiResult:
         self.items = []           # every yielded item, raw
         self.exc = None
         self.closed = False
+        self.stopped_early = False
 
     @property
     def status(self):
@@ -163,11 +164,16 @@ def wsgi_call(app, r_or_env, max_items=None, close_after=None):
     try:
         it = app(env, start_response)
         n = 0
-        for item in it:
-            res.items.append(item)
-            n += 1
-            if close_after is not None and n >= close_after:
-                break
+        res.stopped_early = False
+        if close_after == 0:
+            res.stopped_early = True
+        else:
+            for item in it:
+                res.items.append(item)
+                n += 1
+                if close_after is not None and n >= close_after:
+                    res.stopped_early = True
+                    break
     except BaseException as e:  # noqa
         res.exc = e
     finally:
@@ -237,6 +243,8 @@ def asgi_call(app, r_or_scope, messages=None, *, extensions=None, send_fail_at=N
     res = AsgiResult()
     lp = loop()
     disc = asyncio.Event()
+    if disconnect_after_sends == 0:
+        disc.set()
 
     async def receive():
         res.receive_calls += 1
@@ -274,6 +282,7 @@ def asgi_call(app, r_or_scope, messages=None, *, extensions=None, send_fail_at=N
         res.events.append(m)
         if disconnect_after_sends is not None and n >= disconnect_after_sends:
             disc.set()
+            await asyncio.sleep(0)
         await asyncio.sleep(0)
 
     async def main():
